@@ -446,7 +446,8 @@ def check_sites(prog, chk, pid):
             if _case_value.conditional:
                 conditional.append(cname)
             deps_by_case[cname] = _case_value.unk_deps
-            unf = [f_ for f_ in sorted(getattr(_case_value, "unfollowed", ())) if got[cname] is not None and re.search(r"(?<![A-Za-z0-9_])" + re.escape(f_) + r"\(", A.canon(got[cname]))]
+            ref_fns = set(re.findall(r"([A-Za-z_][A-Za-z0-9_]*)\(", json.dumps([c_["want"] if isinstance(c_, dict) else c_ for c_ in ent["cases"].values()])))  # functions the reference itself is written in
+            unf = [f_ for f_ in sorted(getattr(_case_value, "unfollowed", ())) if f_ not in ref_fns and got[cname] is not None and re.search(r"(?<![A-Za-z0-9_])" + re.escape(f_) + r"\(", A.canon(got[cname]))]
             if unf:
                 partial[cname] = [f"the value rests on {unf[0]}(), a function of the crate whose body the evaluator could not summarise"]
             elif _case_value.incomplete or not _definite(got[cname]):
